@@ -21,7 +21,7 @@ def flag_property(code):
     return code.split("-")[0]
 
 
-ALLV = "fresh,reloaded,second,reloaded2"
+ALLV = "fresh,reloaded,second,reloaded2,multi,multi"
 # property -> (batches, antecedent marks, what makes a trace non-trivial)
 # batch = (profile, cases at quick tier, extra harness arguments)
 PLAN = {
@@ -43,6 +43,8 @@ PLAN = {
             ["C10", "C10c"], "an action retracted a known rule or called Complete while other work was pending"),
     "C11": ([("fetch", 1200, ["-mode", "fetch", "-flagp", "0.3", "-variants", ALLV]), ("control", 200, ["-mode", "fetch"])],
             ["C11"], "a fetch whose rule set holds both matching and non-matching (or removed, or failing) rules"),
+    "C13": ([("memo13", 800, ["-variants", ALLV]), ("memo13", 200, ["-calls", "2", "-mode", "mixed"])],
+            ["C13"], "a later cycle started while the working memory held the value of the counted method atom shared by the rules (so it is consulted again)"),
     "C14": ([("fault", 800, ["-flagp", "0.5", "-variants", ALLV]), ("fault", 200, ["-mode", "mixed", "-flagp", "0.5"])],
             ["C14", "C14a"], "a condition evaluation or an action failed (nil pointer, index or key out of range, % 0, panicking method)"),
     "C15": ([("core", 25, ["-cancel", "-maxcycle", "4"]), ("memo", 20, ["-cancel", "-maxcycle", "4"]),
